@@ -12,6 +12,11 @@ for d in sorted(glob.glob('/verif/seeded/*/')):
         continue
     res = json.load(open(rp))
     prop = meta['property']
+    if meta.get('obsolete') or not res.get('patch_applies'):
+        meta['confirmed_by_me'] = {'patch_applies_to_current_tree': bool(res.get('patch_applies')), 'note': meta.get('obsolete', 'patch does not apply to the current tree')}
+        json.dump(meta, open(d + 'meta.json', 'w'), indent=1)
+        rows.append((sid, '(obsolete) ' + re.sub(r'\s+', ' ', meta.get('obsolete', 'patch no longer applies'))[:150].replace('|', '/'), '-', '-', '-'))
+        continue
     chk = res['checks'].get(prop) or list(res['checks'].values())[0]
     obs = [re.sub(r'^obligation failed: ', '', l).split('  (')[0] for l in chk['lines'] if l.startswith('obligation failed')]
     replayed = any('counterexample replayed' in l for l in chk['lines'])
